@@ -1,6 +1,7 @@
 #ifndef AI_TOOLBOX_POMDP_WITNESS_HEADER_FILE
 #define AI_TOOLBOX_POMDP_WITNESS_HEADER_FILE
 
+#include <algorithm>
 #include <unordered_set>
 
 #include <boost/functional/hash.hpp>
@@ -196,7 +197,17 @@ namespace AIToolbox::POMDP {
                     const auto witness = lp.findWitness(agenda_.back());
                     if ( witness ) {
                         // If so, we generate the best vector for that particular belief point.
-                        U[a].push_back(crossSumBestAtBelief(*witness, projections[a], a));
+                        auto best = crossSumBestAtBelief(*witness, projections[a], a);
+                        // If the best vector there is one we already have, the point was
+                        // a witness only within the LP's numerical noise (the improvement
+                        // is exactly zero): adding it again changes nothing and we would
+                        // examine the same agenda entry forever.
+                        const auto sameValues = [&best](const VEntry & e) { return e.values == best.values; };
+                        if ( std::any_of(std::begin(U[a]), std::end(U[a]), sameValues) ) {
+                            agenda_.pop_back();
+                            continue;
+                        }
+                        U[a].push_back(std::move(best));
                         lp.addOptimalRow(U[a].back().values);
                         // We add to the agenda all possible "variations" of the VEntry found.
                         addVariations(projections[a], U[a].back());
